@@ -3,6 +3,7 @@ import z3
 
 from . import spec as S
 from .arr import SymArr, as_array, havoc_array, new_array
+from .core import Proxy  # noqa
 from .core import SymNum, Unsupported, and_, ctx, implies, is_sym, ite, lift, not_, or_, spec_sqrt
 from .spec import Exists, Forall
 
@@ -11,7 +12,7 @@ def _use(name):
     ctx().used_prelude.add("scipy." + name)
 
 
-class SymKDTree:
+class SymKDTree(Proxy):
     """scipy.spatial.cKDTree over the rows of an (n, d) array (contents captured at build time)."""
 
     def __init__(self, data, leafsize=16, **kwargs):
@@ -116,7 +117,7 @@ class SymKDTree:
 cKDTree = SymKDTree
 
 
-class SymDelaunay:
+class SymDelaunay(Proxy):
     """scipy.spatial.Delaunay(points).find_simplex(x) != -1  <=>  x lies in the convex hull of the points
     (points on the hull boundary may go either way).  in_hull is an uninterpreted predicate of the point
     set (identified by its written contents) and the query point."""
